@@ -115,3 +115,11 @@ def race_reports(out, repo):
             key = "|".join(sorted({t[0].split("/")[-1] for t in mine}))
             found.setdefault(key, blk)
     return found
+
+
+def replay(ctx, path):
+    """C18 findings come from schedules (gated) or from free-running executions: the replay re-runs the whole
+    scenario set with the seed stored in the replay file."""
+    j = json.load(open(path))
+    ctx.seed = int(j.get("seed", ctx.seed))
+    run(ctx)
